@@ -141,6 +141,7 @@ VERIF_HARNESS(h_at_optional_vector)
   verif_reach("at_optional_vector-end");
 }
 //@harness h_at_optional_vector param n=0..3 tier=quick leak=1
+//@harness h_at_optional_vector param n=4..6 tier=thorough leak=1
 
 VERIF_HARNESS(h_at_optional_array)
 {
@@ -172,6 +173,7 @@ VERIF_HARNESS(h_pop_front_deque_list)
   verif_reach("pop_front-end");
 }
 //@harness h_pop_front_deque_list param n=0..2 tier=quick leak=1
+//@harness h_pop_front_deque_list param n=3..5 tier=thorough leak=1
 
 VERIF_HARNESS(h_find_opt_map)
 {
@@ -204,6 +206,7 @@ VERIF_HARNESS(h_grid_at_optional)
   verif_reach("grid_at_optional-end");
 }
 //@harness h_grid_at_optional param w=0..2 param h=0..2 tier=quick leak=1
+//@harness h_grid_at_optional param w=3..4 param h=0..4 tier=thorough leak=1
 
 VERIF_HARNESS(h_array_from_range)
 {
@@ -257,6 +260,7 @@ VERIF_HARNESS(h_is_flag)
   verif_reach("is_flag-end");
 }
 //@harness h_is_flag param n=0..3 tier=quick leak=1
+//@harness h_is_flag param n=4..6 tier=thorough leak=1
 
 VERIF_HARNESS(h_next_arg)
 {
@@ -296,6 +300,9 @@ VERIF_HARNESS(h_next_arg)
 // ---- the C06 harnesses, decided again here for their UB / termination / exception obligations
 //@harness h_tc_{D}_{S} for D in u8,u16,u32,u64,i8,i16,i32,i64 for S in u8,u16,u32,u64,i8,i16,i32,i64 tier=quick
 //@harness h_fi_{U}_{N}_{V} for U in u8,u16,u32 for N in 1,3,9 for V in u8,u16,u32,u64 tier=quick
+//@harness h_fi_u8_{N}_{V} for N in 2,17,200,255 for V in u8,u16,u32,u64 tier=thorough
+//@harness h_fi_u16_{N}_{V} for N in 256,1000,65535 for V in u8,u16,u32,u64 tier=thorough
+//@harness h_fi_u32_{N}_{V} for N in 65536,4294967295 for V in u8,u16,u32,u64 tier=thorough
 //@harness h_ceil_div_{T} for T in u32,u64 tier=quick
 //@harness h_ceil_div_signed_{T} for T in i32,i64 tier=quick
 //@harness h_div_mod_{T} for T in u8,u16,u32,u64 tier=quick
